@@ -1,7 +1,7 @@
 /-
 Model of the page loop of `weasyprint/pdf/__init__.py::generate_pdf`: one PDF page object per `document.pages`
 entry, in order, with MediaBox / TrimBox / BleedBox computed from the page size, its bleed and `zoom`
-(as repaired: the bleed is scaled like everything else).  Lengths are exact rationals (CSS px in, PDF points out).
+(as repaired: the bleed and the 10pt cap of the BleedBox are scaled by `zoom` like everything else).  Lengths are exact rationals (CSS px in, PDF points out).
 No Mathlib.
 -/
 import WpModel.Model.Wire
@@ -52,9 +52,10 @@ def pdfPage (zoom : Rat) (p : PageGeom) : PdfPage :=
   let trimTop := top + bt
   let trimRight := right - br
   let trimBottom := bottom - bb
+  let cap := 10 * zoom          -- `min(10 * zoom, bleed[side])`
   { mediaBox := ⟨left, top, right, bottom⟩
     trimBox := ⟨trimLeft, trimTop, trimRight, trimBottom⟩
-    bleedBox := ⟨trimLeft - minR 10 bl, trimTop - minR 10 bt, trimRight + minR 10 br, trimBottom + minR 10 bb⟩
+    bleedBox := ⟨trimLeft - minR cap bl, trimTop - minR cap bt, trimRight + minR cap br, trimBottom + minR cap bb⟩
     flipF := p.height * scale }
 
 /-- The loop: `pdf.add_page` appends one page per `document.pages` entry (`pdf.pages['Kids']`, `Count += 1`). -/
